@@ -68,12 +68,12 @@ type Obs struct {
 type Runner struct {
 	// AgentNodeID: the Node ID the agent is configured with (cpiface.hostname); empty = its N4 address
 	AgentNodeID string
-	A     *rig.Agent
-	B     *rig.Bessd
-	P4    *rig.P4d
-	Peers []*PeerState
-	Sess  map[int]*SessState
-	Hist  []*Obs
+	A           *rig.Agent
+	B           *rig.Bessd
+	P4          *rig.P4d
+	Peers       []*PeerState
+	Sess        map[int]*SessState
+	Hist        []*Obs
 	// RespTimeout is how long a request may stay unanswered.
 	RespTimeout time.Duration
 	PeerBase    int // peers use 127.0.<PeerBase>.<2+i>
